@@ -36,10 +36,12 @@ Value& CHRExpression::value(Context & ctx) const
   case Type::NO_TYPE:
     break;
   case Type::INTEGER:
-    v = Value(new Literal(1, (char)(*val.integer())));
+    if (!val.isNull())
+      v = Value(new Literal(1, (char)(*val.integer())));
     break;
   case Type::NUMERIC:
-    v = Value(new Literal(1, (char)(*val.numeric())));
+    if (!val.isNull())
+      v = Value(new Literal(1, (char)(*val.numeric())));
     break;
   default:
     throw RuntimeError(EXC_RT_FUNC_ARG_TYPE_S, KEYWORDS[oper]);
